@@ -4,6 +4,10 @@ import json, os
 V = os.path.dirname(os.path.dirname(os.path.abspath(__file__)))
 
 CLAIMED = {
+    'C03': dict(
+        text='Bounded model checking of the real text of codegen/bitfield_unit.rs (all 8 value entry points and the bit accessors, storage sizes 1..16 bytes, every offset/width<=64/value), of the real accessor and constructor quote! templates of codegen/mod.rs instantiated per (declared type, unit size, offset, width) tuple and compared with C bit-field semantics, and of ir/comp.rs::bitfields_to_allocation_units on symbolic runs against clang\'s LayoutBitField rule. Three recorded defects (F1 sign extension, F2 shift by 64, F7 union unit size) are reported as KNOWN-FINDING; anything outside their regions is a violation.',
+        note='Trusted: Kani/CBMC; bit-level reference models in the harness; libclang offsets assumed to obey the Itanium rule. Shapes (unit size, const OFFSET/WIDTH tuples, declared type) are harness parameters from a stated list; contents are symbolic. Not covered: which template CompInfo::codegen selects, enum-typed bit-fields, MS ABI, big-endian.',
+        ref='DESIGN.md section 3, C03'),
     'C14': dict(
         text='Bounded model checking (Kani/CBMC over the real features.rs, E1 splice): for ALL u64 minor/patch values, all editions and nightly the solver shows no feature flag is on before its stabilisation release, flags are monotone, editions are gated exactly, constructors/constants agree with the table, and the edition gate statement of Builder::generate rejects exactly the unavailable pairs. Strongest claim of the set: the whole input space of the deciding code is covered.',
         note='Trusted: Kani/CBMC; the stabilisation table written in the harness from the Rust release notes. Not covered: that every codegen site consults its flag (token templates).',
